@@ -97,7 +97,16 @@ pub fn scalars() -> Vec<Scalar> {
     vec![
         Scalar::Integer("7".into()),
         Scalar::Integer("007".into()),
+        Scalar::Integer("0".into()),
+        Scalar::Integer("2147483647".into()),
+        Scalar::Integer("2147483648".into()),
+        Scalar::Integer("16777215".into()),
+        Scalar::Integer("4294967296".into()),
+        Scalar::Integer("99999999999999999999999999".into()),
         Scalar::Float("1.5".into()),
+        Scalar::Float("0.0".into()),
+        Scalar::Float("-0".into()),
+        Scalar::Float("10f".into()),
         Scalar::Float(".5".into()),
         Scalar::Float("-.5f".into()),
         Scalar::Float("+1".into()),
@@ -110,6 +119,9 @@ pub fn scalars() -> Vec<Scalar> {
         Scalar::Str("\"/*\"".into()),
         Scalar::Str("\"*/ }\"".into()),
         Scalar::Str("\"C:\\\"".into()),
+        Scalar::Str("\"@param {x} <a href='mailto:a@b.c'>\"".into()),
+        Scalar::Str("\" leading and trailing \"".into()),
+        Scalar::Str("\"\t tab\"".into()),
         Scalar::Bool(true),
         Scalar::Bool(false),
     ]
@@ -212,7 +224,7 @@ pub fn docs_for_values() -> Vec<Document> {
 pub fn annotation_forms() -> Vec<Vec<Annot>> {
     let i1 = Some(Scalar::Integer("1".into()));
     let s = Some(Scalar::Str("\"s\"".into()));
-    vec![
+    let v = vec![
         vec![],
         vec![Annot::simple("@A")],
         vec![annot_with("@A", vec![], false)],
@@ -238,13 +250,50 @@ pub fn annotation_forms() -> Vec<Vec<Annot>> {
             annot_with("@A", vec![("inout2", Some(Scalar::Bool(false)))], false),
             annot_with("@B", vec![("x", Some(Scalar::Float("-.5f".into())))], true),
         ],
-    ]
+        // parameter names that differ in letter case only
+        vec![annot_with("@Permission", vec![("id", s.clone()), ("ID", i1.clone()), ("Id", None)], false)],
+    ];
+    let mut v = v;
+    // well-known annotation names, each bare / with an empty list / with a foreign key / with
+    // its usual key (data values: a validation step keyed on the name must cope with all of them)
+    for (name, key) in [
+        ("@Backing", "type"),
+        ("@nullable", "heap"),
+        ("@utf8InCpp", "x"),
+        ("@VintfStability", "x"),
+        ("@JavaDerive", "toString"),
+        ("@Descriptor", "value"),
+        ("@Hide", "x"),
+        ("@Deprecated", "note"),
+        ("@SuppressWarnings", "value"),
+        ("@FixedSize", "x"),
+        ("@JavaPassthrough", "annotation"),
+        ("@EnforcePermission", "value"),
+        ("@UnsupportedAppUsage", "maxTargetSdk"),
+        ("@JavaOnlyStableParcelable", "x"),
+    ] {
+        v.push(vec![Annot::simple(name)]);
+        v.push(vec![annot_with(name, vec![], false)]);
+        v.push(vec![annot_with(name, vec![("size", s.clone())], false)]);
+        v.push(vec![annot_with(name, vec![(key, Some(Scalar::Str("\"int\"".into())))], false)]);
+        v.push(vec![annot_with(name, vec![(key, None)], true)]);
+    }
+    v
 }
 
 /// Each annotation form on item / member / argument / forward declaration / enum element.
 pub fn docs_for_annotations() -> Vec<Document> {
+    docs_for_annotation_forms(&annotation_forms()[..12])
+}
+
+/// The same positions with well-known annotation names (bare, empty list, foreign key, usual key).
+pub fn docs_for_known_annotations() -> Vec<Document> {
+    docs_for_annotation_forms(&annotation_forms()[12..])
+}
+
+fn docs_for_annotation_forms(forms: &[Vec<Annot>]) -> Vec<Document> {
     let mut docs = Vec::new();
-    for an in annotation_forms() {
+    for an in forms.iter().cloned() {
         for kind in [ItemKind::Interface, ItemKind::Parcelable, ItemKind::Enum] {
             let mut it = Item::new(kind, "X");
             it.annots = an.clone();
@@ -558,14 +607,46 @@ pub fn docs_for_headers() -> Vec<Document> {
     docs
 }
 
-pub const NEAR_KEYWORD_NAMES: [&str; 10] = [
+pub const NEAR_KEYWORD_NAMES: [&str; 45] = [
     "inout2", "int_", "Listing", "voidx", "_package", "In", "string", "trueish", "Mapx", "oneway_",
+    // data values outside the small alphabets: underscores and digits, one character, words that
+    // begin with a keyword / contextual word / built-in name, letter-case variants
+    "_", "__", "_x", "x_1", "X9", "a", "Z", "interfaceFoo", "importer", "parcelableX", "enumX", "constant",
+    "input", "outer", "inner", "inoutX", "List2", "MapEntry", "Strings", "CharSequence2", "byteX",
+    "falsey", "FOO", "foo", "Foo", "fOO", "IBinder2", "ParcelableHolderX", "android", "os", "I", "packages",
+    "voidPtr", "Array", "a_very_long_identifier_that_goes_on_and_on_0123456789_a_very_long_identifier_that_goes_on_and_on_0123456789_abcdefghij",
 ];
+
+/// Words that are keywords or well-known names in other languages (Java words the grammar does not
+/// reserve, C++, Rust, Python, Kotlin, newer AIDL) - all plain identifiers here.
+pub const FOREIGN_WORDS: [&str; 112] = [
+    "abstract", "assert", "extends", "final", "finally", "implements", "instanceof", "native", "strictfp", "super",
+    "synchronized", "throws", "transient", "null", "var", "record", "sealed", "permits", "yield", "module",
+    "auto", "bool", "delete", "friend", "inline", "namespace", "operator", "template", "typedef", "union",
+    "unsigned", "using", "virtual", "signed", "sizeof", "struct", "register", "explicit", "export", "extern",
+    "mutable", "typename", "nullptr", "noexcept", "constexpr", "decltype", "wchar_t", "size_t", "uint8_t", "std",
+    "as", "async", "await", "crate", "dyn", "fn", "impl", "let", "loop", "match",
+    "mod", "move", "mut", "pub", "ref", "self", "Self", "trait", "type", "unsafe",
+    "use", "where", "def", "lambda", "None", "pass", "with", "from", "global", "is",
+    "not", "or", "and", "del", "elif", "except", "fun", "val", "when", "object",
+    "companion", "nullable", "utf8InCpp", "cpp_header", "ndk_header", "rust_type", "Object", "Integer", "Boolean", "Void",
+    "VOID", "Int", "string_", "list", "map", "Parcelable", "Interface", "Enum", "Package", "Import",
+    "Oneway", "Const",
+];
+
+/// Every identifier slot filled with each foreign word.
+pub fn docs_for_foreign_words() -> Vec<Document> {
+    docs_for_words(&FOREIGN_WORDS)
+}
 
 /// Every identifier slot filled with each near-keyword.
 pub fn docs_for_names() -> Vec<Document> {
+    docs_for_words(&NEAR_KEYWORD_NAMES)
+}
+
+fn docs_for_words(words: &[&str]) -> Vec<Document> {
     let mut docs = Vec::new();
-    for w in NEAR_KEYWORD_NAMES {
+    for w in words.iter().copied() {
         // interface with the word everywhere
         let mut it = Item::new(ItemKind::Interface, w);
         let mut m = Method::new(
@@ -589,6 +670,10 @@ pub fn docs_for_names() -> Vec<Document> {
         docs.push(d);
         let mut pi = Item::new(ItemKind::Parcelable, w);
         pi.members.push(Member::Field(Field::new(Ty::custom(w), w, None)));
+        // the word as array element, nested array element and map value too
+        pi.members.push(Member::Field(Field::new(Ty::array(Ty::custom(w)), "arr", None)));
+        pi.members.push(Member::Field(Field::new(Ty::list(Ty::array(Ty::custom(w))), "larr", None)));
+        pi.members.push(Member::Field(Field::new(Ty::map(Ty::string(), Ty::custom(&format!("{w}.{w}"))), "m", None)));
         docs.push(Document::new(w, pi));
         let mut ei = Item::new(ItemKind::Enum, w);
         ei.elems.push(EnumElem::new(w, None));
